@@ -343,7 +343,7 @@ def run_history(job: T.Tuple[int, int, str, T.Optional[T.List[dict]]]) -> dict:
             argv = ['configure', b] + flags(assign, unset)
             step = {'step': 'configure', 'assign': assign, 'unset': unset}
         elif kind == 'reconfigure':
-            assign = gen.assignment(m, rng.randint(0, 2), 0.1, 0.04)
+            assign = gen.assignment(m, rng.randint(0, 3), 0.1, 0.12)
             inject = rng.random() < 0.15
             expect_ok = m.reconfigure(assign, inject)
             argv = ['setup', '--reconfigure', b, src] + flags(assign)
@@ -397,12 +397,24 @@ def run_history(job: T.Tuple[int, int, str, T.Optional[T.List[dict]]]) -> dict:
             for k in exp:
                 subn, _, name = k.rpartition(':')
                 keys.append((name, (subn or ('' if name not in L.BUILTINS else None))))
+            gone = m.vanished()
+            for k in gone:
+                subn, _, name = k.rpartition(':')
+                keys.append((name, subn or ''))
             got = optprobe.read_options(b, keys)
             if '__load_error__' in got:
                 problem(f'{step["step"]}/coredata-unreadable', detail=got['__load_error__'])
                 break
             bad = False
+            for k in gone:
+                res['checked_values'] += 1
+                if not (isinstance(got.get(k), dict) and 'error' in got[k]):
+                    problem(f'{step["step"]}/removed-option-still-present', key=k, got=got.get(k))
+                    bad = True
+                    break
             for k, e in exp.items():
+                if bad:
+                    break
                 g = L.norm(got.get(k))
                 res['checked_values'] += 1
                 if g != e:
